@@ -244,6 +244,44 @@ def phased_script(draw, cid, conf, rkinds, pww):
     return sc
 
 
+def shared_service_scenario(draw, conf):
+    """Two clients wait for the same login-type service; the first goes through a challenge or a retry with it and is
+    answered for good; a reload then drops the service while the second client still waits; the service answers the
+    second client.  (Per-service bookkeeping shared between clients must not let the first client's history decide
+    whether the second one's answer is still heard.)"""
+    logins = [s_[0] for s_ in conf["services"] if s_[1] in ("login", "login-ipr", "combined")]
+    S = draw(st.sampled_from(logins))
+    others = [s_[0] for s_ in conf["services"] if s_[0] != S]
+    a, b = draw(st.sampled_from([(1, 2), (2, 1), (7, 40), (2000000000, -2000000000)]))
+    ev = []
+    for cid in (a, b):
+        ev += [["C", cid, draw(st.sampled_from(IPS)), draw(st.integers(1, 65535))], ["N", cid, "host%d.example.org" % (cid % 100)], ["u", cid, "id%d" % (cid % 100)],
+               ["n", cid, "Nick%d" % (cid % 100)], ["U", cid, "user", "real name"]]
+    ev.append(["P", a, "%s acctA pwA" % draw(st.sampled_from(["+x", "+x!", "+"]))])
+    ev.append(["P", b, "%s acctB pwB" % draw(st.sampled_from(["+x", "+x!", "+!"]))])
+    how = draw(st.sampled_from(["MORE", "AGAIN", "MORE", "OK"]))
+    if how == "MORE":
+        ev += [["X", a, S, "MORE say friend", "cur"], ["P", a, "mellon"]]
+    elif how == "AGAIN":
+        ev += [["X", a, S, "AGAIN wrong password", "cur"], ["P", a, "+x acctA pwA2"]]
+    for o in others:
+        if draw(st.booleans()):
+            ev.append(["X", a, o, "OK", "cur"])
+    ev.append(["X", a, S, draw(st.sampled_from(["OK acctA:1", "OK acctA:1", "OK", "NO go away"])), "cur"])
+    for o in others:
+        if draw(st.booleans()):
+            ev.append(["X", b, o, "OK", "cur"])
+    ev.append(["reconf", {"services": [list(s_) for s_ in conf["services"] if s_[0] != S]}])
+    ev.append(["X", b, S, draw(st.sampled_from(["OK acctB:2", "OK acctB:2", "NO not you", "MORE riddle", "AGAIN later", "OK"])), "cur"])
+    for o in others:
+        ev.append(["X", b, o, "OK", "cur"])
+        ev.append(["X", a, o, "OK", "cur"])
+    ev += [["H", a], ["H", b]]
+    if conf.get("timeout"):
+        ev += [["!", a], ["!", b]]
+    return ev
+
+
 EXTREME_IDS = [-2147483648, -2147483647, -2000000000, -1500000000, -2, 0, 5, 7, 1500000000, 2000000000, 2147483646, 2147483647]
 
 
@@ -259,6 +297,9 @@ def history_s(draw, pid, tier, conf=None, max_clients=None, distinct_ids=False, 
         conf = draw(conf_s(pid, tier))
     if pid in ("C02", "C03") and "iauth_xquery" not in conf["modules"] and "iauth_class" not in conf["modules"]:
         pass
+    if pid in ("C02", "C03", "C05") and 1 <= len(conf["services"]) <= 5 and any(s_[1] in ("login", "login-ipr", "combined") for s_ in conf["services"]) \
+            and "iauth_xquery" in conf["modules"] and draw(st.integers(0, 13)) == 0:
+        return {"conf": conf, "events": shared_service_scenario(draw, conf)}
     big = tier == "thorough"
     nscripts = draw(st.integers(1, max_clients or (6 if big else 4)))
     if distinct_ids:
